@@ -3,6 +3,8 @@ package props
 import (
 	"encoding/json"
 	"fmt"
+	"github.com/xjslang/xjs/lexer"
+	"github.com/xjslang/xjs/parser"
 	"os"
 	"strings"
 
@@ -52,6 +54,18 @@ func c12Check(src string, intact int) (domain bool, kind, detail string) {
 	}
 	if o.Err == nil || len(o.Errs) == 0 {
 		return true, "accepted", fmt.Sprintf("malformed text %q accepted without error (tree %s)", src, ref.XStmts(o.Prog.Statements))
+	}
+	// strictness is a property of the parser builder: a sibling builder that shares the lexer builder and is
+	// tolerant / smart, or the same builder having been tolerant before, must not make this one lenient
+	{
+		lb := lexer.NewBuilder()
+		parser.NewBuilder(lb).WithTolerantMode(true).WithSmartSemicolon(true).Build("a").ParseProgram()
+		pbS := parser.NewBuilder(lb)
+		pbS.WithTolerantMode(true).Build("{ a").ParseProgram()
+		pbS.WithTolerantMode(false)
+		if o2 := parseWith(pbS, src); o2.Panic == "" && (o2.Err == nil || len(o2.Errs) == 0) {
+			return true, "accepted-with-history", fmt.Sprintf("malformed text %q accepted without error by a strict builder that shares its lexer builder with a tolerant one and was itself tolerant before", src)
+		}
 	}
 	e := o.Errs[0]
 	if off := posOff(src, e.Range.Start); off >= 0 && off < intact {
@@ -111,6 +125,7 @@ func c12Faults(c *core.Ctx, src string, report func(fault, corrupted string, int
 }
 
 func c12Run(c *core.Ctx) {
+	processWarmup()
 	nValid := 0
 	seen := func(fault, orig string) func(string, string, int) {
 		return nil
